@@ -30,9 +30,35 @@ structure Describes (w w' : World) (b : Batch) : Prop where
 
 /-! ### lists of valid ingresses -/
 
+theorem mem_insertIng {a i : Ingress} {l : List Ingress} : i ∈ insertIng a l ↔ i = a ∨ i ∈ l := by
+  induction l with
+  | nil => simp [insertIng]
+  | cons b l ih =>
+    unfold insertIng
+    split
+    · simp
+    · simp only [List.mem_cons, ih]
+      constructor
+      · rintro (h | h | h)
+        · exact Or.inr (Or.inl h)
+        · exact Or.inl h
+        · exact Or.inr (Or.inr h)
+      · rintro (h | h | h)
+        · exact Or.inr (Or.inl h)
+        · exact Or.inl h
+        · exact Or.inr (Or.inr h)
+
+theorem mem_sortIngs {i : Ingress} {l : List Ingress} : i ∈ sortIngs l ↔ i ∈ l := by
+  induction l with
+  | nil => simp [sortIngs]
+  | cons b l ih =>
+    have : sortIngs (b :: l) = insertIng b (sortIngs l) := rfl
+    rw [this, mem_insertIng, ih]
+    simp
+
 theorem mem_validSorted {w : World} {i : Ingress} : i ∈ w.validSorted ↔ i ∈ w.ings ∧ w.valid i = true := by
   unfold World.validSorted
-  rw [(List.mergeSort_perm _ _).mem_iff, List.mem_filter]
+  rw [mem_sortIngs, List.mem_filter]
 
 theorem find_key_of_mem (l : List Ingress) (hnd : (l.map Ingress.key).Nodup) {i : Ingress} (hi : i ∈ l) :
     l.find? (fun x => decide (x.key = i.key)) = some i := by
